@@ -100,6 +100,7 @@ class Interp:
         self.hyp = []
         self.ext_returns = []
         V.OBJREG.clear()
+        self.creating_new = 0
         self.trace_base = 0        # clauses of a callee evaluated at a call site see only the events it emits
         self.callsites = {}        # (callee, line) -> [reached, normal return feasible]
         self.dmap_keys = {}        # Ref -> key terms used on this path (for model concretisation)
@@ -172,6 +173,8 @@ class Interp:
 
     def init_loc(self, key, content):
         self.heap.data[key] = content
+        if self.creating_new:
+            return          # a container created during execution (callee result, havoc): not part of older states
         for s in self.snapshots:
             if key not in s.data and s.ver.get(key, 0) == self.heap.ver.get(key, 0):
                 s.data[key] = content
@@ -329,6 +332,8 @@ class Interp:
         if t == "set":
             c = self.container(v.ref)
             return z3.BoolVal(len(c.items) > 0)
+        if t == "opaque" and v.sort == "PyObj":
+            return z3.Function("py_truth", usort("PyObj"), z3.BoolSort())(v.t)     # truthiness of an unknown object
         if t in ("obj", "fn", "cls", "opaque", "exc"):
             if t == "obj" and v.ref.kind == "rec" and v.ref.shape is not None and not v.ref.shape.fields:
                 return z3.BoolVal(False)
@@ -1151,6 +1156,10 @@ class Interp:
             return VStr(z3.SubString(base.t, t2, 1))
         if base.tag == "none":
             self.raise_("TypeError", "NoneType is not subscriptable")
+        if base.tag == "opaque":
+            fc = self.cset.lookup_method(base.sort, "__getitem__")
+            if fc is not None:
+                return self.call_contract(fc, base, [idx], {}, None)
         raise Unsupported("subscript on %r" % base)
 
     def conc_index(self, idx, n):
@@ -1624,8 +1633,12 @@ class Interp:
                 try:
                     if i == 0:
                         cs[0] += 1
-                        res = self.fresh(fc.result, self.fresh_name("ret_" + fc.key)) if fc.result is not None \
-                            else NONE
+                        self.creating_new += 1
+                        try:
+                            res = self.fresh(fc.result, self.fresh_name("ret_" + fc.key)) if fc.result is not None \
+                                else NONE
+                        finally:
+                            self.creating_new -= 1
                         self.result = res
                         if fc.result is not None:
                             self.ext_returns.append((fc.key, getattr(getattr(recv, "ref", None), "name", None), res))
